@@ -63,6 +63,7 @@ class FnSpec:
     hints: dict = field(default_factory=dict)  # where -> [ast.expr] ghost lemma calls
     ghosts: list = field(default_factory=list)  # [(name, ast.expr)] entry-state let-bindings
     local_sorts: dict = field(default_factory=dict)
+    known: dict = field(default_factory=dict)  # ensures ordinal -> known-finding id
     reraise: dict = field(default_factory=dict)  # raises-clause ordinal -> name of the Exc parameter whose object is re-raised
 
     @property
@@ -312,6 +313,11 @@ def _load_fn(m: Module, node: ast.FunctionDef, kind, deco):
             fs.requires.append(call.args[0])
         elif fn == "ensures":
             fs.ensures.append(call.args[0])
+        elif fn == "ensures_known":
+            # ensures_known("KF-id", expr): a clause of the statement that is KNOWN not to hold on a recorded witness class;
+            # refuted + listed in known_findings.json => KNOWN-FINDING line, not a violation; discharged => defect gone
+            fs.known[len(fs.ensures)] = _const(call.args[0])
+            fs.ensures.append(call.args[1])
         elif fn == "raises":
             when, strict, ens = None, True, None
             for kw in call.keywords:
